@@ -377,7 +377,7 @@ pub fn run_resume(report: &Report, tier: Tier, mem0: &[u8], atoms: &[Call]) {
     // quick: every case with one interrupt, a fixed fifth of those with two
     let cases: Vec<(Script, Vec<Answer>)> = cases.into_iter().enumerate().filter(|(i, _)| !quick || *i < one || i % 5 == 0).map(|(_, x)| x).collect();
     report.set_extra("resume_cases", json!(cases.len()));
-    cases.par_iter().enumerate().for_each(|(i, (s, a))| check_script_r(report, s, a, &p7, mem0, i % 64 == 0));
+    cases.par_iter().enumerate().for_each(|(i, (s, a))| check_script_r(report, s, a, &p7, mem0, !quick || i % 64 == 0));
     // ---- limits across sections ---------------------------------------------------------------
     let mut special: Vec<(Ctx, Script, Vec<Answer>)> = vec![];
     let okn = |d: Option<Vec<u8>>| Answer { resp: Resp::Success { new_balance: 1, data: d }, state_updated: false };
